@@ -48,7 +48,31 @@ func tlv8ReaderModel(c *core.Ctx) {
 	}
 
 	// eof
-	if f := p.Func("tlv8", "(*reader).eof"); f != nil {
+	eofFn := p.Func("tlv8", "(*reader).eof")
+	if eofFn == nil {
+		// eof(m) — a function of the map: every caller hands it the reader's map
+		if g := p.Func("tlv8", "eof"); g != nil && len(g.Params) == 1 {
+			if _, isMapT := g.Params[0].Type().Underlying().(*types.Map); isMapT {
+				all, n := true, 0
+				for _, e := range p.CallersOf(g) {
+					n++
+					if e.Site == nil || e.Site.Common().StaticCallee() != g || len(e.Site.Common().Args) != 1 {
+						all = false
+						continue
+					}
+					if _, ok := core.FieldLoad(e.Site.Common().Args[0], tReader, "m"); !ok {
+						all = false
+					}
+				}
+				if all && n > 0 {
+					eofFn = g
+					isMapRecv := isMap
+					isMap = func(v ssa.Value) bool { return v == ssa.Value(g.Params[0]) || isMapRecv(v) }
+				}
+			}
+		}
+	}
+	if f := eofFn; f != nil {
 		good := true
 		for _, n := range []int64{0, 1, 3} {
 			r, ok := core.Eval(f, func(v ssa.Value) (constant.Value, bool) {
@@ -128,6 +152,10 @@ func tlv8ReaderModel(c *core.Ctx) {
 			}
 		}
 		c.Check(good, "reader-len@"+fname(f), f.Pos(), "len(tag) is the length of the first value of the tag, 0 if there is none", "len(tag) is not the length of the next value of the tag (constant, inverted presence test, wrong element): the width promotion of the integer readers picks a narrower or wider reader than the item has — values come back truncated, or a short item is indexed beyond its end")
+	} else if inlineLenGuards(c) {
+		// the question is asked where it is needed: every fixed-width reader compares the length of the first value of its tag (0 if
+		// there is none) itself — decided per reader by the guarded-read obligations
+		c.OK("reader-len@inline", token.NoPos, "no len(tag) method: the fixed-width readers test the length of the first value of their tag themselves")
 	} else {
 		c.Undecided("reader-len", token.NoPos, "(*reader).len not found")
 	}
@@ -627,4 +655,77 @@ func tlv8MergeOnlyPreviousItem(c *core.Ctx) {
 	}
 	c.Check(good, "merge-only-previous-item@"+fname(rd), rd.Pos(), "a fragment is merged only where its tag equals the tag of the item before it",
 		"an item is merged into the last value of its tag whenever the tag was seen before and no list delimiter came directly before it — whatever other items lie in between: in an inline list of structs with two or more fields the fields of every element after the first are glued onto the first element's value and the later elements come back without them")
+}
+
+// firstValueLenOrZero: v is "the length of the first value left for tag, 0 if there is none" written out — a merge of the constant 0
+// and len(r.m[tag][0]) (the form a helper  firstLen(r.m[tag])  has after inlining).
+func firstValueLenOrZero(v ssa.Value, tag ssa.Value) bool {
+	ph, ok := core.StripConv(v).(*ssa.Phi)
+	if !ok {
+		return false
+	}
+	tReader := mod + "/tlv8.reader"
+	isList := func(x ssa.Value) bool {
+		return core.AllSources(x, func(s ssa.Value) bool {
+			if e, ok := s.(*ssa.Extract); ok && e.Index == 0 {
+				s = e.Tuple
+			}
+			lk, ok := s.(*ssa.Lookup)
+			if !ok || !valIs(lk.Index, tag) {
+				return false
+			}
+			_, isM := core.FieldLoad(lk.X, tReader, "m")
+			return isM
+		})
+	}
+	lens, zeros := 0, 0
+	for _, e := range ph.Edges {
+		if k, isK := core.ConstInt(e); isK && k == 0 {
+			zeros++
+			continue
+		}
+		call, ok := e.(*ssa.Call)
+		if !ok {
+			return false
+		}
+		bi, ok := call.Call.Value.(*ssa.Builtin)
+		if !ok || bi.Name() != "len" {
+			return false
+		}
+		u, ok := core.StripConv(call.Call.Args[0]).(*ssa.UnOp)
+		if !ok || u.Op != token.MUL {
+			return false
+		}
+		ia, ok := u.X.(*ssa.IndexAddr)
+		if !ok || !isList(ia.X) {
+			return false
+		}
+		if k, isK := core.ConstInt(ia.Index); !isK || k != 0 {
+			return false
+		}
+		lens++
+	}
+	return lens > 0 && zeros > 0
+}
+
+// inlineLenGuards: every fixed-width reader has a comparison of firstValueLenOrZero with a constant.
+func inlineLenGuards(c *core.Ctx) bool {
+	for _, name := range []string{"readUint16", "readUint32", "readUint64", "readint16", "readint32", "readint64"} {
+		f := c.P.Func("tlv8", "(*reader)."+name)
+		if f == nil || len(f.Params) < 2 {
+			return false
+		}
+		found := false
+		core.Instrs(f, func(i ssa.Instruction) {
+			if bo, ok := i.(*ssa.BinOp); ok {
+				if _, isK := core.ConstInt(bo.Y); isK && firstValueLenOrZero(bo.X, f.Params[1]) {
+					found = true
+				}
+			}
+		})
+		if !found {
+			return false
+		}
+	}
+	return true
 }
